@@ -168,8 +168,9 @@ namespace BitSerializer::Csv::Detail
 			// Extract values even line is empty (CSV can consist only one column, some values can be empty)
 			out_values.emplace_back(startValuePos, endValuePos - startValuePos, doubleQuotesCount != 0);
 
-			// Handle end of file (RFC: The last record in the file may or may not have an ending line break)
-			if (mCurrentPos == mSourceString.size())
+			// Handle end of file (RFC: The last record in the file may or may not have an ending line break),
+			// but when the file ends with a separator, there is one more (empty) value after it
+			if (endValuePos == totalSize)
 			{
 				break;
 			}
